@@ -864,7 +864,7 @@ def _graph_desc(sc):
 def plan(prop, tier):
     if tier == 'quick':
         return {'runs': 6000, 'wall_cap': 900}
-    return {'runs': 300000, 'wall_cap': 6 * 3600}
+    return {'runs': 100000, 'wall_cap': 6 * 3600, 'opt_runs': 6000}
 
 
 _orig_generate = generate
